@@ -313,6 +313,35 @@ func runC14(c *Ctx) {
 		}
 		// (iii) loadAmmo filters after an unbounded load (O14.4) and runPreloaded counts delivered entries only
 		c.Check(len(Calls(load, Spec{"./components/providers/http/decoders", "Decoder", "LoadAmmo"})) == 1, "O14.2", fk(load)+":loads-through-LoadAmmo", load.Pos(), "the preload path loads through Decoder.LoadAmmo (unbounded, see O14.4) and filters afterwards")
+		// (iv) loadAmmo itself applies no bound: the limit/passes of the preload path are enforced where entries are
+		// delivered (runPreloaded, O8.1); truncating the loaded list before or while filtering counts filtered-out entries.
+		{
+			la := Calls(load, Spec{"./components/providers/http/decoders", "Decoder", "LoadAmmo"})
+			nBound := 0
+			EachInstr(load, func(in ssa.Instruction) {
+				if v, ok := in.(ssa.Value); ok && (IsFieldLoad(v, "Config", "Limit") || IsFieldLoad(v, "Config", "Passes")) {
+					nBound++
+				}
+			})
+			okRange := false
+			if len(la) == 1 {
+				// the filtered loop ranges over exactly the loaded slice
+				EachInstr(load, func(in ssa.Instruction) {
+					if ia, ok := in.(*ssa.IndexAddr); ok && DerivesOnly(ia.X, false, IsResultOf(la[0].(*ssa.Call), 0)) {
+						if _, sliced := Strip(ia.X).(*ssa.Slice); !sliced {
+							okRange = true
+						}
+					}
+				})
+				EachInstr(load, func(in ssa.Instruction) {
+					if sl, ok := in.(*ssa.Slice); ok && DerivesAny(sl.X, false, IsResultOf(la[0].(*ssa.Call), 0)) {
+						okRange = false
+					}
+				})
+			}
+			c.Check(okRange, "O14.2", fk(load)+":preload-filters-the-whole-loaded-list", load.Pos(),
+				fmt.Sprintf("loadAmmo must filter the whole list returned by LoadAmmo (ranges over the unsliced result: %v; reads of Limit/Passes in loadAmmo: %d): truncating before the filter counts filtered-out entries against the limit", okRange, nBound))
+		}
 	}
 	// ---- O14.5
 	{
